@@ -423,6 +423,7 @@ theorem parse_formatSymbolic : ∀ a : Fin 512,
       = some (symbolicShape a.val) := by
   decide
 
+set_option maxRecDepth 100000 in
 theorem grpMask_recombine : ∀ a : Fin 512,
     (grpMask a.val 0 &&& 7) ||| ((grpMask a.val 3 &&& 56) ||| (grpMask a.val 6 &&& 448)) = a.val := by
   decide
@@ -448,6 +449,7 @@ theorem umask_symbolic_reread (a : Fin 512) (cur : Nat) :
     Bool.false_and, Bool.false_eq_true, Nat.or_zero]
   rw [hn, grpMask_recombine a]
 
+set_option maxRecDepth 100000 in
 /-- ★ `listing_reparse`, `umask`: the three octal digits printed by `umask` denote the mask (all 512). -/
 theorem umask_octal_reread : ∀ m : Fin 512, Listing.parseOctal3 (Listing.octal3 m.val) = some m.val := by
   decide
